@@ -288,7 +288,9 @@ def gen_history(rng, subj):
             k = rng.choice([1, 1, 2, 2, 3])
             keys = rng.sample(names, min(k, len(names)))
             rng.shuffle(keys)
-            items = [(n, None if rng.random() < 0.3 else core.dyadic(rng, 2, 24, 8)) for n in keys]
+            # values include the boundary 0 (a value that is falsy in Python must still fix the parameter)
+            items = [(n, None if rng.random() < 0.3 else (0.0 if rng.random() < 0.12 else core.dyadic(rng, 2, 24, 8)))
+                     for n in keys]
             if rng.random() < 0.15:
                 items.append(('no such parameter', 1.0))
             op = ('fix', items)
@@ -354,6 +356,14 @@ def run_case(seed):
     try:
         rec, res = subj.evaluate(free)
     except Exception as e:
+        # a value outside a model's domain (e.g. a standard deviation fixed at 0) makes the unfixed object raise as
+        # well: exact substitution then means raising the same error
+        try:
+            subj.reference(full, free_idx)
+        except Exception as e2:
+            if type(e2) is type(e):
+                out['skipped'] = 'both the reduced and the unfixed object raise %s' % type(e).__name__
+                return out
         out['violation'] = 'evaluating the reduced object at %r raised %s: %s' % (free, type(e).__name__, e)
         return out
     out['recorded_full'] = rec
@@ -412,6 +422,9 @@ def run(ck):
         if out.get('violation'):
             ck.violation(key_of(out, ''), out['violation'], {'seed': seed, 'kind': out['kind'], 'sub': out['sub'],
                                                              'ops': out['ops']})
+            continue
+        if out.get('skipped'):
+            ck.count('value outside the model domain: reduced and unfixed object raise alike')
             continue
         label = 'h%d' % i
         exprs.append((label, coq_expr(out)))
